@@ -275,7 +275,7 @@ func Nest(t *rapid.T, p *Profile, maxBytes int, label string) []byte {
 // for triples in the quick tier.
 func LineAtoms(full bool) []string {
 	indents := []string{"", " ", "   ", "    ", "\t", " \t", "\t "}
-	contents := []string{"", "-", "- a", "+", "1.", "1. a", "> a", ">", "```", "~~~", "a", "=", "---", "# a", "<div>", "<!--", "-->", "[a]: b", "|a|", "|-|", ": a", "[^1]: a", "* * *", "a  ", "\\"}
+	contents := []string{"", "-", "- a", "+", "1.", "1. a", "> a", ">", "```", "~~~", "a", "=", "---", "# a", "<div>", "<!--", "-->", "[a]: b", "|a|", "|-|", ": a", "[^1]: a", "* * *", "a  ", "\\", "#", "> \t#"}
 	if !full {
 		indents = []string{"", "  ", "    ", "\t", "\t "}
 		contents = []string{"", "-", "+ a", "1.", ">", "~~~", "a", "=", "<!--", "|-|"}
